@@ -79,6 +79,9 @@ impl Monitor for C14 {
                 }
             } else if n > 0 {
                 out.count("c14.index_updates_without_holders");
+                if pre.reward_bank > pre.prev_reward_balance {
+                    out.count("c14.index_updates_without_holders_with_undistributed_delivery");
+                }
                 if post.prev_reward_balance != pre.prev_reward_balance || post.global_index != pre.global_index {
                     out.violation(P, "update_without_holders_strands_nothing", "an index update while nobody holds bSei changed the recorded balance or the index".into());
                 }
